@@ -325,6 +325,14 @@ def _mkpkg(dirpath, fname, data, extras=True):
         _write(os.path.join(dirpath, 'README.md'), b'# readme\n')
         _write(os.path.join(dirpath, 'LICENSE'), b'license text\n')
         _write(os.path.join(dirpath, 'citation.bib'), b'@misc{x}\n')
+        # files that are ALMOST resources (a package has exactly one resource file):
+        # a table with an "ili" column that is not the first one, a text whose first field
+        # only starts with "ili", XML that is not WN-LMF
+        _write(os.path.join(dirpath, 'mapping.tsv'),
+               b'synset\tili\tpwn30\nx-1-n\ti1\t00001740-n\n')
+        _write(os.path.join(dirpath, 'ili-notes.txt'), b'ilis\tnotes\ni1\tsee above\n')
+        _write(os.path.join(dirpath, 'notes.xml'),
+               b'<?xml version="1.0" encoding="UTF-8"?>\n<notes>LexicalResource</notes>\n')
     return dirpath
 
 
